@@ -110,3 +110,70 @@ package mvp3
 //@   loop 1: invariant comp.disjointLines(u.l1d) ==> (forall j, k :: 0 <= j && j < _idx0 && 0 <= k && k < 64 && int(u.l1d.lines[j].Boundary[0]) + k < len(u.ctx.Memory) ==> memAt(u, int(u.l1d.lines[j].Boundary[0]) + k) == u.l1d.lines[j].Data[k])
 //@   loop 1: invariant i > 0 ==> (forall k :: 0 <= k && k < 64 && int(u.l1d.lines[_idx0].Boundary[0]) + k < len(u.ctx.Memory) ==> memAt(u, int(u.l1d.lines[_idx0].Boundary[0]) + k) == u.l1d.lines[_idx0].Data[k])
 //@   loop 1: invariant forall x :: 0 <= x && x < len(u.ctx.Memory) && x <= 2147483647 && (forall j :: 0 <= j && j < _idx0 ==> !comp.covers(u.l1d.lines[j], int32(x))) && !comp.covers(u.l1d.lines[_idx0], int32(x)) ==> memAt(u, x) == old(memAt(u, x))
+
+// ---------------------------------------------------------------- MVP-3 cycle accounting (C12)
+// MVP-3 = MVP-1 plus an instruction cache and a data cache. Per executed
+// instruction the counter advances by: fetch (L1Access on an L1I hit, else
+// MemoryAccess) + decode (1) + for a load L1Access plus MemoryAccess on an L1D
+// miss + Cycles(type) + write-back (RegisterAccess | for a store L1Access on an
+// L1D hit, MemoryAccess otherwise). The cache state decides which alternative
+// applies, so the step relation is stated as the two bounds; the operand
+// values enter only through the addresses. The memory-unit calls are made
+// under their own preconditions, assumed here (listed): the well-formedness of
+// the two caches is an invariant of the memory unit's operations (C05/C13).
+//@ spec func mmuPre(m *CPU) bool = wfMMU(m.mmu) && len(m.mmu.l1d.lines) <= m.mmu.l1d.numberOfLines && len(m.mmu.l1i.lines) <= m.mmu.l1i.numberOfLines && allocated(m.mmu.ctx.Memory)
+
+//@ func (*memoryManagementUnit).getFromL1I
+//@   requires wfMMU(u)
+//@   ensures result1 ==> len(result) == len(addrs)
+//@   ensures !result1 ==> result == nil
+//@   ensures len(u.l1i.lines) == len(old(u.l1i.lines)) && wfMMU(u)
+//@   assigns u.l1i.lines
+//@   loop 0: invariant wfMMU(u) && u.l1i == old(u.l1i) && u.ctx == old(u.ctx) && len(u.l1i.lines) == len(old(u.l1i.lines)) && len(memory) == _idx0 && cap(memory) >= len(addrs) && fresh(memory) && !sameArray(memory, addrs)
+
+//@ func (*CPU).fetchInstruction
+//@   requires m.mmu != nil && m.mmu.l1i != nil && 0 <= pc && pc <= 1073741824
+//@   nooverflow m.cycle
+//@   assume-before (*memoryManagementUnit).getFromL1I: mmuPre(m)
+//@   assume-before (*memoryManagementUnit).pushLineToL1I: mmuPre(m)
+//@   ensures result == pc
+//@   ensures m.cycle == old(m.cycle) + latency.L1Access || m.cycle == old(m.cycle) + latency.MemoryAccess
+//@   assigns m.cycle, m.mmu.l1i.lines, all []int32
+
+//@ func (*CPU).decode
+//@   requires 0 <= pc && int(pc / 4) < len(app.Instructions)
+//@   nooverflow m.cycle
+//@   ensures result == app.Instructions[pc / 4] && m.cycle == old(m.cycle) + 1
+//@   assigns m.cycle
+
+//@ func (*CPU).execute
+//@   requires m.ctx != nil && r != nil && m.mmu != nil
+//@   nooverflow m.cycle
+//@   assume-before InstructionRunner.MemoryRead: risc.readPre(r, m.ctx)
+//@   assume-after InstructionRunner.MemoryRead: forall i :: 0 <= i && i < len(result) ==> 0 <= result[i] && result[i] <= 1073741824
+//@   assume-before (*memoryManagementUnit).getFromL1D: mmuPre(m)
+//@   assume-before (*memoryManagementUnit).fetchCacheLine: mmuPre(m) && m.mmu.ctx != nil
+//@   assume-before (*memoryManagementUnit).pushLineToL1D: mmuPre(m)
+//@   assume-before InstructionRunner.Run: risc.runPre(r, m.ctx, memory)
+//@   ensures result2 == nil ==> m.cycle >= old(m.cycle) + (risc.memReadCount(r) != 0 ? latency.L1Access : 0) + ((risc.insType(r) == risc.Lb || risc.insType(r) == risc.Lh || risc.insType(r) == risc.Lw) ? 50 : 1)
+//@   ensures result2 == nil ==> m.cycle <= old(m.cycle) + (risc.memReadCount(r) != 0 ? latency.L1Access + latency.MemoryAccess : 0) + ((risc.insType(r) == risc.Lb || risc.insType(r) == risc.Lh || risc.insType(r) == risc.Lw) ? 50 : 1)
+//@   ensures result2 == nil ==> result1 == risc.insType(r)
+//@   ensures result2 != nil ==> m.cycle >= old(m.cycle)
+
+// Run: step relation = the documented model as bounds; the counter never
+// decreases; a store is charged L1Access when it is written to the data cache
+// and MemoryAccess when it goes to memory (write-hit / write-miss routing).
+//@ func (*CPU).Run
+//@   requires m.ctx != nil && m.mmu != nil && m.mmu.l1i != nil && m.cycle >= 0 && m.ctx.Registers != nil && len(app.Instructions) < 268435456 && (forall i :: 0 <= i && i < len(app.Instructions) ==> app.Instructions[i] != nil)
+//@   nooverflow m.cycle, pc
+//@   assume-before (*Context).WriteMemory: forall k int32 :: k in exe.MemoryChanges ==> 0 <= k && int(k) < len(m.ctx.Memory)
+//@   assume-after (*CPU).execute: result.PcChange ==> result.NextPc >= 0
+//@   assume-before (*memoryManagementUnit).flush: wfMMU(m.mmu) && m.mmu.l1d.lineLength == 64 && allocated(m.mmu.ctx.Memory) && (forall j :: 0 <= j && j < len(m.mmu.l1d.lines) ==> !sameArray(m.mmu.l1d.lines[j].Data, m.mmu.ctx.Memory) && int32(m.mmu.l1d.lines[j].Boundary[0]) <= 1073741824)
+//@   ensures result1 == nil ==> result >= old(m.cycle)
+//@   loop 0: invariant m.cycle >= old(m.cycle) && m.ctx != nil && m.mmu != nil && m.mmu.l1i != nil && m.ctx.Registers != nil && 0 <= pc
+//@   loop 0: step m.cycle >= prev(m.cycle) + latency.L1Access + 1 + (risc.memReadCount(r) != 0 ? latency.L1Access : 0) + ((ins == risc.Lb || ins == risc.Lh || ins == risc.Lw) ? 50 : 1) + (exe.RegisterChange ? latency.RegisterAccess : (exe.MemoryChange ? latency.L1Access : 0))
+//@   loop 0: step m.cycle <= prev(m.cycle) + latency.MemoryAccess + 1 + (risc.memReadCount(r) != 0 ? latency.L1Access + latency.MemoryAccess : 0) + ((ins == risc.Lb || ins == risc.Lh || ins == risc.Lw) ? 50 : 1) + (exe.RegisterChange ? latency.RegisterAccess : (exe.MemoryChange ? latency.MemoryAccess : 0))
+//@   -- the loop body applies exactly the Execution returned by the instruction (sequential reference semantics)
+//@   loop 0: step exe.PcChange ? pc == exe.NextPc : pc == prev(pc) + 4
+//@   loop 0: step exe.RegisterChange ==> exe.Register in m.ctx.Registers && m.ctx.Registers[exe.Register] == exe.RegisterValue
+//@   loop 0: step forall r risc.RegisterType :: !(exe.RegisterChange && r == exe.Register) ==> (r in m.ctx.Registers) == prev(r in m.ctx.Registers) && m.ctx.Registers[r] == prev(m.ctx.Registers[r])
